@@ -37,6 +37,7 @@ const (
 	c05Slot      = 5
 	c05TxPointer = 3
 	c05Eon       = 1   // keyper config index of the known keyper set
+	c05Eon2      = 2   // a second, always fully known keyper config index
 	c05Activ     = 100 // activation block of eon / keyper set / collator
 )
 
@@ -147,9 +148,20 @@ func (n *Node) SetC05State(w *World, st *C05States, recv string) error {
 			return fmt.Errorf("access node storage cannot be reset")
 		}
 		if recv != "empty" {
-			n.Storage.AddEonKey(c05Eon, w.Keys.EonPublicKey())
-			n.Storage.AddKeyperSet(c05Eon, &obskprdb.KeyperSet{KeyperConfigIndex: c05Eon, ActivationBlockNumber: c05Activ,
-				Keypers: keyperList(w.Members), Threshold: Threshold})
+			set := func(idx uint64) *obskprdb.KeyperSet {
+				return &obskprdb.KeyperSet{KeyperConfigIndex: int64(idx), ActivationBlockNumber: c05Activ, Keypers: keyperList(w.Members), Threshold: Threshold}
+			}
+			// a second, fully known eon in every non-empty state
+			n.Storage.AddEonKey(c05Eon2, w.Other.EonPublicKey())
+			n.Storage.AddKeyperSet(c05Eon2, set(c05Eon2))
+			// the eon the messages name: both sides, or only one of them (the window while the
+			// key generation of a new keyper set runs / before the keyper set event is seen)
+			if recv != "setonly" {
+				n.Storage.AddEonKey(c05Eon, w.Keys.EonPublicKey())
+			}
+			if recv != "keyonly" {
+				n.Storage.AddKeyperSet(c05Eon, set(c05Eon))
+			}
 		}
 		n.preKey = recv
 		return nil
@@ -209,26 +221,44 @@ func (st *C05States) build(ctx context.Context, recv string) (*fakepg.DB, error)
 	if err != nil {
 		return nil, err
 	}
-	steps := []func() error{
-		func() error {
-			return q.InsertBatchConfig(ctx, kprdb.InsertBatchConfigParams{KeyperConfigIndex: c05Eon, Height: 10, Keypers: keyperList(w.Members),
-				Threshold: Threshold, Started: true, ActivationBlockNumber: c05Activ})
-		},
-		func() error {
-			return q.InsertEon(ctx, kprdb.InsertEonParams{Eon: 11, Height: 11, ActivationBlockNumber: c05Activ, KeyperConfigIndex: c05Eon})
-		},
-		func() error {
-			return q.InsertDKGResult(ctx, kprdb.InsertDKGResultParams{Eon: 11, Success: true, Error: sql.NullString{}, PureResult: pure})
-		},
-		func() error {
-			return obskprdb.New(pool).InsertKeyperSet(ctx, obskprdb.InsertKeyperSetParams{KeyperConfigIndex: c05Eon, ActivationBlockNumber: c05Activ,
+	pure2, err := shdb.EncodePureDKGResult(w.PureResultOther(ReceiverIdx))
+	if err != nil {
+		return nil, err
+	}
+	keySide := func(idx, eon int64, pr []byte) []func() error {
+		return []func() error{
+			func() error {
+				return q.InsertBatchConfig(ctx, kprdb.InsertBatchConfigParams{KeyperConfigIndex: int32(idx), Height: 10 * idx, Keypers: keyperList(w.Members),
+					Threshold: Threshold, Started: true, ActivationBlockNumber: c05Activ * idx})
+			},
+			func() error {
+				return q.InsertEon(ctx, kprdb.InsertEonParams{Eon: eon, Height: eon, ActivationBlockNumber: c05Activ * idx, KeyperConfigIndex: idx})
+			},
+			func() error {
+				return q.InsertDKGResult(ctx, kprdb.InsertDKGResultParams{Eon: eon, Success: true, Error: sql.NullString{}, PureResult: pr})
+			},
+		}
+	}
+	chainSide := func(idx int64) func() error {
+		return func() error {
+			return obskprdb.New(pool).InsertKeyperSet(ctx, obskprdb.InsertKeyperSetParams{KeyperConfigIndex: idx, ActivationBlockNumber: c05Activ * idx,
 				Keypers: keyperList(w.Members), Threshold: Threshold})
-		},
+		}
+	}
+	// a second, fully known keyper set in every non-empty state; of the set the messages name both
+	// sides, or only the chain side ("setonly") / only the key side ("keyonly")
+	steps := append(keySide(c05Eon2, 12, pure2), chainSide(c05Eon2))
+	if recv != "setonly" {
+		steps = append(steps, keySide(c05Eon, 11, pure)...)
+	}
+	if recv != "keyonly" {
+		steps = append(steps, chainSide(c05Eon))
+	}
+	steps = append(steps,
 		func() error {
 			return obscoldb.New(pool).InsertChainCollator(ctx, obscoldb.InsertChainCollatorParams{ActivationBlockNumber: c05Activ,
 				Collator: shdb.EncodeAddress(ethcrypto.PubkeyToAddress(w.CollatorKey.PublicKey))})
-		},
-	}
+		})
 	if recv == "primed" {
 		other := NKeypers - 1 // the keyper whose share and signatures are already stored
 		for _, n := range []int{52, 32, 23} {
